@@ -10,10 +10,11 @@ Import ListNotations.
 Section Rf5.
 Variable H : bytes -> bytes.
 Hypothesis Hlen : forall x, length (H x) = 32.
+Variable climit : nat.
 
 Notation enc := (enc H).
 Notation lrep := (lrep H).
-Notation inv_st := (inv_st H).
+Notation inv_st := (inv_st H climit).
 Notation canb := (canb H).
 
 (** ---- abs_batch_store is sound ---- *)
@@ -52,7 +53,7 @@ Proof.
       assert (Enode : node <> []) by (rewrite En; discriminate).
       destruct (match node with [] => Some new_batch | _ :: _ => load_batch st node end) as [bb|] eqn:El; [|discriminate].
       assert (El' : load_batch st node = Some bb) by (rewrite En in *; exact El).
-      destruct (load_canonical H Hlen st node 0 rp (Lf k v) bb Hinv eq_refl Hh W V Hne Lr Hr El') as [(A1 & A2 & A3)|B]; [left|right; exact B].
+      destruct (load_canonical H Hlen climit st node 0 rp (Lf k v) bb Hinv eq_refl Hh W V Hne Lr Hr El') as [(A1 & A2 & A3)|B]; [left|right; exact B].
       rewrite orb_true_r in Ea. inversion Ea. cbn [BatchRep.lrep] in A3. destruct A3 as (R1 & R2 & _).
       change (2 * 0 + 1) with 1 in R1. change (2 * 0 + 2) with 2 in R2. rewrite R1, R2.
       simpl in W, V.
@@ -101,7 +102,7 @@ Proof.
         destruct (match node with [] => Some new_batch | _ :: _ => load_batch st node end) as [bb|] eqn:El; [|discriminate].
         assert (El' : load_batch st node = Some bb) by (rewrite En in *; exact El).
         apply Nat.eqb_eq in Em.
-        destruct (load_canonical H Hlen st node (S h') rp t bb Hinv Em Hh W V Hne Lr Hr El') as [(A1 & A2 & A3)|B]; [|right; exact B].
+        destruct (load_canonical H Hlen climit st node (S h') rp t bb Hinv Em Hh W V Hne Lr Hr El') as [(A1 & A2 & A3)|B]; [|right; exact B].
         assert (Hsc : beqb (bget bb 0) [1%N] = is_leaf t) by (rewrite A2; destruct t; try congruence; reflexivity).
         rewrite Hsc in Ea.
         apply (Cont bb 0); auto. unfold lvl. rewrite Em. reflexivity.
@@ -196,7 +197,7 @@ Qed.
 
 Theorem commit_keeps_inv st : inv_st st -> inv_st (commit_store st).
 Proof.
-  intros [Hu Hd]. unfold commit_store. split; [simpl; intros x b []|]. simpl.
+  intros (Hu & Hd & Hca). unfold commit_store. split; [simpl; intros x b []|]. split; [|exact Hca]. simpl.
   assert (Gen : forall l d,
      (forall x b, In (x, b) l -> canb x b) ->
      (forall x val, alookup d x = Some val -> val <> [] -> canb x (parse_batch val)) ->
@@ -209,6 +210,24 @@ Proof.
       assert (Hc : canb k b) by (apply Hl; left; reflexivity).
       rewrite (parse_serialize b (canb_wf k b Hc)). exact Hc. }
   apply Gen; auto.
+Qed.
+
+(** reads through liveCache equal reads without it *)
+Definition drop_cache (st : store) : store := {| db := db st; upd := upd st; cache := [] |}.
+
+Lemma inv_drop_cache st : inv_st st -> inv_st (drop_cache st).
+Proof. intros (Hu & Hd & _). split; [exact Hu|]. split; [exact Hd|]. intros x b []. Qed.
+
+Theorem cache_read_transparent st t a b :
+  inv_st st -> wf 256 t -> vals32 t ->
+  abs_batch_store st (root H 256 t) = Some a ->
+  abs_batch_store (drop_cache st) (root H 256 t) = Some b ->
+  (a = t /\ b = t) \/ hash_break H.
+Proof.
+  intros Hinv W V Ea Eb.
+  destruct (abs_batch_store_sound st t a Hinv W V Ea) as [->|B]; [|right; exact B].
+  destruct (abs_batch_store_sound (drop_cache st) t b (inv_drop_cache st Hinv) W V Eb) as [->|B]; [|right; exact B].
+  left. auto.
 Qed.
 
 End Rf5.
